@@ -553,6 +553,22 @@ func (k *c09Case) saveViaManager(l, p int, ws []int, val func(l, ki int) int) bo
 			}
 		}()
 		am := account.NewManager(k.hashOf(p), k.db)
+		if k.c.Rnd.Intn(3) == 0 && len(ws) > 0 {
+			// an ABANDONED execution on the same parent first (a mined block thrown away, a sibling that failed verification):
+			// the same accounts plus one more are read and overwritten, nothing is saved; then Reset(parent), as
+			// TxProcessor.Process / ApplyTxs do for every block.  From here on the manager must be the view of the parent
+			// again (seed C09k: a same-hash fast path of Reset kept the modified account objects): the reads below are
+			// judged by c09/view-mismatch/manager-get, what Save puts by checkViews.
+			extra := (ws[0] + 1) % len(k.keys)
+			for _, ki := range append(append([]int(nil), ws...), extra) {
+				want := k.peek(p, ki)
+				acc := am.GetAccount(k.keys[ki])
+				k.record(fmt.Sprintf("get %d %d", p, ki), want)
+				acc.SetBalance(big.NewInt(int64(770000 + ki)))
+			}
+			am.Reset(k.hashOf(p))
+			k.c.Count("c09:manager:abandoned-execution-then-reset")
+		}
 		for _, ki := range ws {
 			want := k.peek(p, ki)
 			acc := am.GetAccount(k.keys[ki])
